@@ -257,6 +257,11 @@ def check_case(case):
             junk = make_junk({"$nest": n, "kind": kind})
             payload = dict(case["doc"], x_deep=junk, x_zzz=1, granular_markings=[{"marking_ref": "marking-definition--613f2e26-407d-48c7-9eca-b8e91df99dc9", "selectors": ["x_zzz"]}])
             payload = json.dumps(payload) if as_text and n <= 900 else payload
+        elif where == "definition-text":
+            # the marking's `definition` given as JSON TEXT inside the document (the constructor documents str input for it)
+            inner_t = ("[" * n + "1" + "]" * n) if kind == "list" else ('{"a":' * n + "1" + "}" * n)
+            payload = dict(case["doc"], definition=inner_t)
+            payload = json.dumps(payload) if as_text and n <= 900 else payload
         elif where == "parse_observable":
             junk = make_junk({"$nest": n, "kind": kind})
             payload = {"type": "file", "name": "f", "x_deep": junk}
@@ -591,12 +596,16 @@ def run(ctx):
         "file-no-id": {"type": "file", "spec_version": "2.1", "name": "f"},
         "network-traffic-no-id": {"type": "network-traffic", "spec_version": "2.1", "protocols": ["tcp"], "src_ref": "ipv4-addr--3f2504e0-4f89-41d3-9a0c-0305e82c3301"},
         "file-with-id": {"type": "file", "spec_version": "2.1", "id": "file--3f2504e0-4f89-41d3-9a0c-0305e82c3301", "name": "f"},
+        # `definition` is decoded (a dictionary, or JSON text of one) by MarkingDefinition.__init__ itself, before any property is cleaned
+        "marking": {"type": "marking-definition", "spec_version": "2.1", "id": "marking-definition--3f2504e0-4f89-41d3-9a0c-0305e82c3301", "created": "2020-01-01T00:00:00.000Z",
+                    "definition_type": "statement"},
     }
     for depth in (10, 100, 1000, 1500, 5000, 20000):
         for kind in ("list", "dict"):
             for host, where in (("identity", "document"), ("identity", "labels"), ("identity", "extensions"), ("identity", "x_custom"), ("identity", "ext-content"),
                                 ("file-no-id", "ext-content"), ("network-traffic-no-id", "ext-content"), ("file-with-id", "ext-content"), ("file-no-id", "hashes"),
-                                ("network-traffic-no-id", "ipfix"), ("identity", "bundle-in-bundle"), ("identity", "selector-walk"), ("identity", "parse_observable")):
+                                ("network-traffic-no-id", "ipfix"), ("identity", "bundle-in-bundle"), ("identity", "selector-walk"), ("identity", "parse_observable"),
+                                ("marking", "definition"), ("marking", "definition-text")):
                 for as_text in (False, True):
                     for allow in (False, True):
                         if depth == 20000 and as_text:
